@@ -258,18 +258,22 @@ Definition args_of (io : inobj) : out (list pyv) :=
 
 Inductive pr_result := PROut (o : oobj) | PRErr (f : fault).
 
+(** "in object is always a sequence of incoming values. We need to fix that for bare mode." *)
+Definition pr_in_stage (U : universe) (d : descriptor) (io : inobj) : out inobj :=
+  do a <- first_match U d (OSeq []) pr_in_chain;
+  match a with
+  | Some InWrapList => do x <- inobj_as_py io; Ok (IList [x])
+  | Some InEmptyList => Ok (IList [])
+  | None => Ok io
+  end.
+
 (** everything happens inside one try block: any exception other than a Fault becomes
     Fault('Server', 'Internal Error') *)
 Definition process_request (U : universe) (d : descriptor) (f : ufun) (h : option hdr) (io : inobj)
   : pr_result * list event :=
   let before := map EvFire pr_events_before in
   let fail_exc (evs : list event) := (PRErr internal_error, evs ++ map EvFire pr_events_exception) in
-  match (do a <- first_match U d (OSeq []) pr_in_chain;
-         match a with
-         | Some InWrapList => do x <- inobj_as_py io; Ok (IList [x])
-         | Some InEmptyList => Ok (IList [])
-         | None => Ok io
-         end) with
+  match pr_in_stage U d io with
   | Ok io' =>
       match args_of io' with
       | Ok args =>
@@ -384,23 +388,23 @@ Definition null_call := null_call_gen null_ti_source.
 Inductive proto := PXml | PSoap | PHier.      (* XmlDocument | Soap11 | JsonDocument & co. *)
 
 (** the reference client: positional arguments first, then keywords by name, None for the rest *)
-Fixpoint bind (names : list text) (args : list val) (kw : list (text * val)) : list val :=
+Fixpoint bind_args (names : list text) (args : list val) (kw : list (text * val)) : list val :=
   match names with
   | [] => []
   | k :: ns =>
       match args with
-      | a :: r => a :: bind ns r kw
-      | [] => (match kw_get kw k with Some v => v | None => VNone end) :: bind ns [] kw
+      | a :: r => a :: bind_args ns r kw
+      | [] => (match kw_get kw k with Some v => v | None => VNone end) :: bind_args ns [] kw
       end
   end.
 (** the request message value the client writes: the wrapper with one value per parameter, or
     (bare) the argument itself — a complex argument is given field-wise *)
 Definition client_request (U : universe) (d : descriptor) (args : list val) (kw : list (text * val)) : out rmsg :=
   match md_in d with
-  | MWrap fs => Ok (RWrap (bind (map fst fs) args kw))
+  | MWrap fs => Ok (RWrap (bind_args (map fst fs) args kw))
   | MType (TRef c) =>
       match flat_fields U c with
-      | Some ffs => Ok (RBare (VObj c (bind (map f_name ffs) args kw)))
+      | Some ffs => Ok (RBare (VObj c (bind_args (map f_name ffs) args kw)))
       | None => Crash OtherExn
       end
   | MType _ => Ok (RBare (match args with a :: _ => a | [] => VNone end))
